@@ -1,16 +1,19 @@
 package uu
 
-import "math/rand"
+import (
+	"math/rand"
+	"strconv"
+)
 
 // vecSource feeds the replay vector's draws to the real generator when a counterexample is replayed natively.
-type vecSource struct{ n int }
+type vecSource struct{ n, base int }
+
+// drawn counts the draws made so far in this run: the executor names them rand1, rand2, ... in call order.
+var drawn int
 
 func (s *vecSource) Int63() int64 {
 	s.n++
-	if s.n == 1 {
-		return int64(vU64("rand1") &^ (1 << 63))
-	}
-	return int64(vU64("rand2") &^ (1 << 63))
+	return int64(vU64("rand"+strconv.Itoa(s.n+s.base)) &^ (1 << 63))
 }
 func (s *vecSource) Seed(int64) {}
 
@@ -18,9 +21,10 @@ func (s *vecSource) Seed(int64) {}
 func draw() ID {
 	if vNative() {
 		randomMutex.Lock()
-		random = rand.New(&vecSource{})
+		random = rand.New(&vecSource{base: drawn})
 		randomMutex.Unlock()
 	}
+	drawn += 2
 	return RandomID()
 }
 
@@ -76,4 +80,51 @@ func HT_C19_adjacentBits(k int) {
 	vMust("01", !x && y)
 	vMust("10", x && !y)
 	vMust("11", x && y)
+}
+
+// parity of the bits of x
+func parity64(x uint64) uint64 {
+	x ^= x >> 32
+	x ^= x >> 16
+	x ^= x >> 8
+	x ^= x >> 4
+	x ^= x >> 2
+	x ^= x >> 1
+	return x & 1
+}
+
+// Joint freedom of the 122 random bits. (1) The ID is an affine function over GF(2) of the 126 draw bits:
+// f(x ^ y) = f(x) ^ f(y) ^ f(0) for all x, y. (2) Its linear part has full rank on the 122 free positions: there is
+// no non-empty set of free bits whose parity is the same for the zero draw and all 126 unit draws. Together: every
+// one of the 2^122 combinations of the free bits is produced by exactly 16 of the 2^126 draws, so no bit is tied to
+// another, duplicated or derived from others - which per-bit and adjacent-pair witnesses cannot show.
+//
+//verif:harness C19 quick
+func H_C19_jointFreedom() {
+	drawn = 0
+	x := draw() // rand1, rand2: arbitrary
+	y := draw() // rand3, rand4: arbitrary
+	s := draw() // rand5, rand6 := the sum of the two
+	z := draw() // rand7, rand8 := 0
+	vAssume(vU64("rand5") == vU64("rand1")^vU64("rand3") && vU64("rand6") == vU64("rand2")^vU64("rand4"))
+	vAssume(vU64("rand7") == 0 && vU64("rand8") == 0)
+	vAssert("id-is-affine-in-the-draws", s.Higher == x.Higher^y.Higher^z.Higher && s.Lower == x.Lower^y.Lower^z.Lower)
+
+	// a set of free bit positions (non-empty, avoiding version and variant)
+	mH, mL := vU64("maskHigher"), vU64("maskLower")
+	vAssume(mH&0xf000 == 0 && mL>>62 == 0 && (mH != 0 || mL != 0))
+	odd := uint64(0)
+	for i := 0; i < 126; i++ {
+		e := draw() // rand(9+2i), rand(10+2i) := i-th unit vector of the 126 draw bits
+		a, b := uint64(0), uint64(0)
+		if i < 63 {
+			a = 1 << uint(i)
+		} else {
+			b = 1 << uint(i-63)
+		}
+		vAssume(vU64("rand"+strconv.Itoa(9+2*i)) == a && vU64("rand"+strconv.Itoa(10+2*i)) == b)
+		odd |= parity64(mH&(e.Higher^z.Higher)) ^ parity64(mL&(e.Lower^z.Lower))
+	}
+	vAssert("no-parity-of-free-bits-is-constant", odd == 1)
+	vReach("assumptions-satisfiable", true)
 }
